@@ -50,7 +50,8 @@ RULE = ("generated Python programs: every single-return helper body of a typed g
         "call-site binders; staying lambdas binding the argument's name by any parameter kind; callables that must stay by name "
         "(bound methods of objects with state, classmethods, functools.wraps / lru_cache decorated functions, a decorator without "
         "wraps (oracle only), helpers with := in body, default value or nested lambda) x 27 call shapes x 5 parameter names x "
-        "nesting; helpers whose inner call is left by the FC4 bail-out, called with variables named like their parameters, "
+        "nesting; module-level helpers reading globals whose names are also locals of the call site's closure; "
+        "helpers whose inner call is left by the FC4 bail-out, called with variables named like their parameters, "
         "permuted or inside expressions (substitution happens once); helpers whose comprehensions (list/set/dict/generator, two "
         "clauses) have nested tuple / list / starred targets x argument names equal to each target name; callables that cannot be "
         "turned into a lambda (`return` without a value, `...`, `pass`, a body whose rewriting raises) directly, through inlinable "
@@ -469,6 +470,35 @@ def source_shapes(ctx):
     return out
 
 
+# FC5 with two scopes: a module-level helper reads module globals (G, K); the callable handed to the operator sits in a
+# function that has LOCALS of the same names and mentions them: the helper's free names are frozen with the helper's own
+# globals, the call site's with its closure
+CLOSURE_LAMS = [
+    "lambda e: h7(e.z) + G", "lambda e: h7(e.z) * K - G", "lambda e: hh(e.z) + G", "lambda e: (h7(e.a), G, K)",
+    "lambda e: sum(e.jets.Select(lambda j: h7(j.pt) + G))", "lambda e: sum([hh(j.pt) * G for j in e.jets]) + K",
+    "lambda e: h7(G)", "lambda e: h7(h7(e.a) + G)", "lambda G: h7(G.a)", "lambda e: hloc(e.a) + h7(e.a) + G",
+]
+
+
+def closure_vs_global(ctx):
+    out = []
+    for lam in CLOSURE_LAMS:
+        for depth, local_scopes in ((1, ("l1",)), (2, ("l1",)), (2, ("l2",)), (2, ("l1", "l2")), (3, ("l1", "l3"))):
+            for passed in ("inline", "def-local"):
+                vs = [Var("G", "g", "G = 7"), Var("K", "g", "K = 3"),
+                      Var("h7", "g", "def h7(a):\n    return a * G + K", "h7 = 'REBOUND'", helper=(["a"], "a * G + K"), byname=True),
+                      Var("hh", "g", "def hh(a):\n    return h7(a) - G", "hh = 'REBOUND'", helper=(["a"], "h7(a) - G"), byname=True)]
+                for i, sc in enumerate(local_scopes):
+                    vs.append(Var("G", sc, "G = %d" % (70 + i)))
+                    if i == 0:
+                        vs.append(Var("K", sc, "K = 30"))
+                # a helper defined next to the locals reads THEM
+                vs.append(Var("hloc", local_scopes[-1], "def hloc(a):\n    return a - G", "hloc = 'REBOUND'", helper=(["a"], "a - G"), byname=True))
+                c = Case(lam, vs, depth, {"closure-vs-global"}, group="closure-vs-global", passed=passed)
+                out.append(c)
+    return out
+
+
 # Substitution must happen once.  A call that FC4 deliberately leaves un-inlined (its argument names a binder of the
 # callee's body) sits inside an inlined helper; the arguments of the call that stays are already substituted and must not be
 # visited again under the same argument maps.  That shows when the call site's variables are named like the outer helper's
@@ -593,7 +623,11 @@ def starred_and_defaults(ctx):
 
 
 def corpus():
-    out = [_src_case(lam, 1, tags, "corpus", scope) for lam, tags, scope in SRC_WITNESSES]
+    out = [Case("lambda e: scaled(e.a) + SCALE",
+                [Var("SCALE", "g", "SCALE = 2"), Var("OFFSET", "g", "OFFSET = 100"), Var("SCALE", "l1", "SCALE = 10"),
+                 Var("scaled", "g", "def scaled(x):\n    return x * SCALE + OFFSET", "scaled = 'REBOUND'",
+                     helper=(["x"], "x * SCALE + OFFSET"), byname=True)], 1, {"closure-vs-global"}, group="corpus")]
+    out += [_src_case(lam, 1, tags, "corpus", scope) for lam, tags, scope in SRC_WITNESSES]
     out += [_nolambda_case(NOLAMBDA_WITNESS, 1, {"no-lambda", "bare-return"}, group="corpus")] + f34_f36_witnesses() + f30_f31_witnesses()
     out.append(mk("lambda a: wn(a.a, [((1, 2), 3), ((4, a.b), 6)])", [("wn", ["k", "rows"], "[k * a + b + c for (a, b), c in rows]", "def")],
                   tags={"FC4", "unpacking-target"}, group="corpus"))
@@ -803,7 +837,7 @@ def inlinable_left_by_name(case: Case, tree) -> list:
 
 
 def run(ctx):
-    cs = corpus() + starred_and_defaults(ctx) + stays_by_name(ctx) + resubstitution(ctx) + unpacking_targets(ctx) + no_lambda(ctx) + source_shapes(ctx) + second_call_cases() + higher_order(ctx) + structured(ctx)
+    cs = corpus() + starred_and_defaults(ctx) + stays_by_name(ctx) + resubstitution(ctx) + unpacking_targets(ctx) + no_lambda(ctx) + source_shapes(ctx) + closure_vs_global(ctx) + second_call_cases() + higher_order(ctx) + structured(ctx)
     en = enumerated(ctx)
     cap = ctx.budget(3000, 60000)
     if len(en) > cap:
